@@ -12,6 +12,7 @@ func init() {
 			if s := c.Slashing("C06.anchors"); s.OK() {
 				c.FetchHelperRules("C06", s, "att")
 				c.FetchHelperRules("C06", s, "prop")
+				c.BadgerBufferDiscipline("C11")
 				c.RecordBeforeApprove("C06", s, "att")
 				c.RecordBeforeApprove("C06", s, "prop")
 			}
